@@ -127,12 +127,17 @@ InAmb(f, v) == ~Huge(f, v) /\ v \in Doc[f].amb
 InRange(f, v) == ~Huge(f, v) /\ v >= Doc[f].lo /\ v <= Doc[f].hi
                  /\ (f = "encoder_bit_depth" => v # 9)
 (* Fields documented as applicable only in some mode are judged only in that mode:                          *)
-(*   [H] max/min_qp_allowed "only applicable when rate control mode is set to 1"; vbr_bias/under/over-shoot  *)
-(*   and recode_loop are "TWO PASS DATARATE CONTROL"/VBR options; qp "used under constant qp rate control";  *)
-(*   [G] key-frame qindex offsets belong to use-fixed-qindex-offsets; [H] hbd mode decision "for 10 bit      *)
-(*   content".  Outside the mode an out-of-range value is neither required to be rejected nor to be accepted.*)
-RcOnly == {"max_qp_allowed", "min_qp_allowed", "vbr_bias_pct", "under_shoot_pct", "over_shoot_pct", "recode_loop"}
-Applies(f, c) == /\ (f \in RcOnly => c.rate_control_mode = 1)
+(*   [H] max/min_qp_allowed "only applicable when rate control" is on -- the header says "mode 1", written    *)
+(*   before the constrained VBR mode 2 existed, which uses the same bounds: judged in modes 1 and 2;          *)
+(*   vbr_bias/under/over-shoot and recode_loop are "TWO PASS DATARATE CONTROL"/VBR options (mode 1);         *)
+(*   qp "used under constant qp rate control"; [G] key-frame qindex offsets belong to                        *)
+(*   use-fixed-qindex-offsets; [H] hbd mode decision "for 10 bit content".                                   *)
+(* Outside the mode an out-of-range value is neither required to be rejected nor to be accepted.             *)
+QpBounds == {"max_qp_allowed", "min_qp_allowed"}
+VbrOnly == {"vbr_bias_pct", "under_shoot_pct", "over_shoot_pct", "recode_loop"}
+RcOnly == QpBounds \cup VbrOnly
+Applies(f, c) == /\ (f \in QpBounds => c.rate_control_mode \in {1, 2})
+                 /\ (f \in VbrOnly => c.rate_control_mode = 1)
                  /\ (f = "qp" => c.rate_control_mode = 0)
                  /\ (f \in {"key_frame_qindex_offset", "key_frame_chroma_qindex_offset"} => c.use_fixed_qindex_offsets = 1)
                  /\ (f = "enable_hbd_mode_decision" => c.encoder_bit_depth = 10)
@@ -149,13 +154,16 @@ IntraPeriodOut(c) ==
   \/ (c.rate_control_mode >= 1 /\ c.rate_control_mode <= 2 /\ c.intra_period_length > 255)
 (* [G][D] look-ahead [0-120]; the value ~0 returned by init_handle means "auto" *)
 LadOut(c) == c.look_ahead_distance # -1 /\ (U(c.look_ahead_distance) \/ c.look_ahead_distance > 120)
-(* [D] "The rate control mode 2/3 LAD must be equal to intra_period" *)
+(* [D] "The rate control mode 2/3 LAD must be equal to intra_period"; with the look-ahead limited to 120 no      *)
+(* admissible look-ahead exists for an intra period above 120.  An automatic look-ahead (~0) is chosen by the   *)
+(* library and cannot violate the rule.                                                                        *)
 CvbrLadOut(c) == c.rate_control_mode = 2 /\ c.intra_period_length >= 0
-                 /\ c.look_ahead_distance # -1 /\ c.look_ahead_distance # c.intra_period_length
-(* the documentation of rate_control_mode 2 is contradictory about an automatic look-ahead *)
-CvbrLadAmb(c) == c.rate_control_mode = 2 /\ (c.look_ahead_distance = -1 \/ c.intra_period_length = -2)
+                 /\ \/ c.intra_period_length > 120
+                    \/ (c.look_ahead_distance # -1 /\ c.look_ahead_distance # c.intra_period_length)
+(* an explicit look-ahead next to an automatic / absent intra period: the documentation does not say what it is compared with *)
+CvbrLadAmb(c) == c.rate_control_mode = 2 /\ c.look_ahead_distance # -1 /\ c.intra_period_length < 0
 (* [H] "It has to be smaller or equal to maxQpAllowed" *)
-QpOrderOut(c) == c.rate_control_mode = 1 /\ ~U(c.min_qp_allowed) /\ ~U(c.max_qp_allowed) /\ c.min_qp_allowed > c.max_qp_allowed
+QpOrderOut(c) == c.rate_control_mode \in {1, 2} /\ ~U(c.min_qp_allowed) /\ ~U(c.max_qp_allowed) /\ c.min_qp_allowed > c.max_qp_allowed
 (* [D] "MaxTiles is 128" *)
 TilesOut(c) == c.tile_rows >= 0 /\ c.tile_columns >= 0 /\ c.tile_rows <= 6 /\ c.tile_columns <= 6
                /\ c.tile_rows + c.tile_columns > 7
@@ -259,7 +267,7 @@ Prod3(f, F, g, G, h, H) == {<<A(f, a), A(g, b), A(h, d)>> : a \in F, b \in G, d 
 GroupRc == Prod3("rate_control_mode", {0, 1, 2, 3}, "intra_period_length", {-3, -2, -1, 0, 1, 31, 120, 255, 256, IMax - 1, IMax},
                  "look_ahead_distance", {0, 1, 31, 120, 121, 255, 256, -1, IMax, IMin})
 GroupProfile == Prod3("profile", {0, 1, 2, 3}, "encoder_bit_depth", {8, 9, 10, 12, 16}, "encoder_color_format", {0, 1, 2, 3, 4})
-GroupQp == Prod3("rate_control_mode", {0, 1}, "min_qp_allowed", {0, 1, 30, 62, 63, 64}, "max_qp_allowed", {0, 1, 29, 30, 62, 63, 64})
+GroupQp == Prod3("rate_control_mode", {0, 1, 2}, "min_qp_allowed", {0, 1, 30, 62, 63, 64}, "max_qp_allowed", {0, 1, 29, 30, 62, 63, 64})
 GroupTiles == Prod2("tile_rows", -1 .. 7, "tile_columns", -1 .. 7)
 GroupIbc == Prod2("intrabc_mode", -2 .. 4, "screen_content_mode", 0 .. 3)
 GroupSuperres == Prod3("superres_mode", 0 .. 4, "rc_firstpass_stats_out", {0, 1}, "rate_control_mode", {0, 1, 2})
@@ -283,6 +291,7 @@ GroupQOff == {<<A("use_fixed_qindex_offsets", u), A("qindex_offsets[0]", v)>> : 
 
 (* mode-dependent fields are swept inside their mode *)
 GroupMode == UNION {{<<A("rate_control_mode", 1), A(f, v)>> : v \in Probe(f)} : f \in RcOnly}
+             \cup UNION {{<<A("rate_control_mode", 2), A(f, v)>> : v \in Probe(f)} : f \in QpBounds}
              \cup UNION {{<<A("use_fixed_qindex_offsets", 1), A(f, v)>> : v \in Probe(f)} :
                             f \in {"key_frame_qindex_offset", "key_frame_chroma_qindex_offset"}}
              \cup {<<A("encoder_bit_depth", 10), A("enable_hbd_mode_decision", v)>> : v \in Probe("enable_hbd_mode_decision")}
